@@ -1,6 +1,6 @@
 SPECIFICATION TSpec
 CONSTANTS
-  ITEMS = {"bal_btc", "bal_eth", "bal_usdt"}
+  ITEMS = {"bal_binance_spot_btc", "bal_binance_spot_eth", "bal_binance_spot_usdt", "bal_kraken_btc", "bal_kraken_eth", "bal_kraken_usdt"}
   TIMES = {1}
   VALUES = {1}
 INVARIANT Done
